@@ -179,3 +179,46 @@ func c07Watchers() ([]mc.Violation, map[string]any) {
 	cov["watcher_subcheck"] = map[string]any{"rule": "CSV-registration families of the real-watcher exploration (rpc btc, electrum lbtc, lnd btc; reorgs, stale answers, RPC faults, mid-call chain changes) + fair continuation after every history: services healthy, chain grows past maturity => maturity must be reported", "states": rep.States, "executions": rep.Executions, "exhaustive": rep.Exhaustive, "families": fams}
 	return vs, cov
 }
+
+// c05Watchers: the Bitcoin HTLC-expiry inequality also depends on WHEN the real watcher reports the
+// opening transaction as confirmed: the taker starts paying on that report and may keep an HTLC
+// open for up to CSV/2 blocks afterwards, so a report for a transaction that is already CSV/2 (the
+// window) deep breaks h_pay + allowance < confirmation + CSV.  The confirmation-registration
+// families of the real-watcher exploration on Bitcoin run here as a sub-check.
+func c05Watchers() ([]mc.Violation, map[string]any) {
+	out := fmt.Sprintf("%s/c05w-%d.json", workDir, os.Getpid())
+	cmd := exec.Command(os.Args[0], "-test.run", "^TestC20$", "-test.timeout", "0")
+	cmd.Env = append(os.Environ(), "VERIF_C20_ONLY=-btc/conf", "VERIF_C20_C05=1", "VERIF_C20_EXPORT="+out)
+	ob, err := cmd.CombinedOutput()
+	b, rerr := os.ReadFile(out)
+	cov := map[string]any{}
+	if rerr != nil {
+		cov["internal"] = []string{fmt.Sprintf("c05 watcher sub-check failed: %v\n%s", err, tail(string(ob), 3000))}
+		return nil, cov
+	}
+	_ = os.Remove(out)
+	var rep struct {
+		Violations []mc.Violation   `json:"violations"`
+		States     int              `json:"states"`
+		Executions int              `json:"executions"`
+		Families   []map[string]any `json:"families"`
+		Internal   []string         `json:"internal"`
+		Exhaustive bool             `json:"exhaustive"`
+	}
+	_ = json.Unmarshal(b, &rep)
+	var vs []mc.Violation
+	for _, v := range rep.Violations {
+		if i := strings.Index(v.Key, ":confirmed_reported_at_depth_ge_window"); i > 0 {
+			vs = append(vs, mc.Violation{Property: "C05", Key: "htlc_may_outlive_csv:watcher=" + v.Key[:i] + ":cause=confirmation_reported_for_tx_already_a_window_deep", Detail: v.Detail, History: v.History, Scenario: "watcher:" + v.Scenario})
+		}
+	}
+	if len(rep.Internal) > 0 {
+		cov["internal"] = rep.Internal
+	}
+	var fams []string
+	for _, f := range rep.Families {
+		fams = append(fams, fmt.Sprintf("%v(states=%v,depth=%v)", f["family"], f["states"], f["completed_depth"]))
+	}
+	cov["watcher_subcheck"] = map[string]any{"rule": "confirmation-registration families of the real-watcher exploration on Bitcoin (rpc, lnd; tx confirmed before / after the start height; reorgs, faults, mid-call changes): a success report for a transaction that is already window (= CSV/2) blocks deep", "states": rep.States, "executions": rep.Executions, "exhaustive": rep.Exhaustive, "families": fams}
+	return vs, cov
+}
